@@ -680,22 +680,65 @@ func (c *Ctx) fromUnsigned(x string, l leaf) string {
 }
 
 func (c *Ctx) bitwise(op token.Token, a, b string, bits int) string {
+	// single-bit chunks of both operands (linear defining equations, shared by
+	// every later use of the same operand), then the truth table per bit
+	bitsOf := func(x string) []string {
+		out := make([]string, bits)
+		if c.raw > 0 {
+			for i := 0; i < bits; i++ {
+				out[i] = c.I("(mod (div %s %s) 2)", x, pow2(i))
+			}
+			return out
+		}
+		r := c.repOf(x, bits)
+		for i := 0; i < bits; i++ {
+			out[i] = c.termOf(c.sliceBits(r, i, i+1))
+			r = c.normalize(r)
+		}
+		return out
+	}
+	ba, bb := bitsOf(a), bitsOf(b)
 	var parts []string
 	for i := 0; i < bits; i++ {
-		ba := c.I("(mod (div %s %s) 2)", a, pow2(i))
-		bb := c.I("(mod (div %s %s) 2)", b, pow2(i))
 		var bit string
 		switch op {
 		case token.OR:
-			bit = c.I("(ite (>= (+ %s %s) 1) 1 0)", ba, bb)
+			bit = c.I("(ite (>= (+ %s %s) 1) 1 0)", ba[i], bb[i])
 		case token.AND:
-			bit = c.I("(* %s %s)", ba, bb)
+			bit = c.I("(ite (= (+ %s %s) 2) 1 0)", ba[i], bb[i])
 		case token.AND_NOT:
-			bit = c.I("(* %s (- 1 %s))", ba, bb)
+			bit = c.I("(ite (and (= %s 1) (= %s 0)) 1 0)", ba[i], bb[i])
 		default:
-			bit = c.I("(mod (+ %s %s) 2)", ba, bb)
+			bit = c.I("(ite (= (+ %s %s) 1) 1 0)", ba[i], bb[i])
 		}
-		parts = append(parts, c.I("(* %s %s)", pow2(i), bit))
+		if bit == "0" {
+			continue
+		}
+		parts = append(parts, c.mulK(bit, 1<<uint(i)))
+	}
+	if len(parts) == 0 {
+		return "0"
+	}
+	if bits > 62 {
+		// mulK takes an int: rebuild with big constants
+		parts = parts[:0]
+		for i := 0; i < bits; i++ {
+			var bit string
+			switch op {
+			case token.OR:
+				bit = c.I("(ite (>= (+ %s %s) 1) 1 0)", ba[i], bb[i])
+			case token.AND:
+				bit = c.I("(ite (= (+ %s %s) 2) 1 0)", ba[i], bb[i])
+			case token.AND_NOT:
+				bit = c.I("(ite (and (= %s 1) (= %s 0)) 1 0)", ba[i], bb[i])
+			default:
+				bit = c.I("(ite (= (+ %s %s) 1) 1 0)", ba[i], bb[i])
+			}
+			parts = append(parts, c.I("(* %s %s)", pow2(i), bit))
+		}
+	}
+	if len(parts) == 1 {
+		return parts[0]
 	}
 	return c.I("(+ %s)", strings.Join(parts, " "))
 }
@@ -972,6 +1015,22 @@ func (e *Exec) bitop(op token.Token, a, b string, bits int) string {
 			}
 			if m.BitLen() < w {
 				w = m.BitLen()
+			}
+		}
+		// one narrow operand (k bits) and one wide one: only the low k bits of the
+		// wide operand take part; the rest is carried over unchanged
+		if (ma == nil) != (mb == nil) && c.raw == 0 {
+			wide, narrow, mn := a, b, mb
+			if ma != nil {
+				wide, narrow, mn = b, a, ma
+			}
+			if k := mn.BitLen(); k > 0 && k < bits {
+				rw := c.repOf(wide, bits)
+				lo := c.termOf(c.sliceBits(rw, 0, k))
+				hi := c.termOf(append(zeros(k), c.sliceBits(rw, k, bits)...))
+				low := c.bitwise(op, lo, narrow, k)
+				c.setMax(low, new(big.Int).Sub(pow2(k), big.NewInt(1)))
+				return c.I("(+ %s %s)", hi, low)
 			}
 		}
 		r := c.bitwise(op, a, b, w)
